@@ -253,8 +253,8 @@ func c03Atoms() []c03Atom {
 	basic("int8", int8(0), func(r *rand.Rand) reflect.Value { return rv(genI(r, math.MinInt8, math.MaxInt8)) })
 	basic("int16", int16(0), func(r *rand.Rand) reflect.Value { return rv(genI(r, math.MinInt16, math.MaxInt16)) }, "default:-5")
 	basic("int32", int32(0), func(r *rand.Rand) reflect.Value { return rv(genI(r, math.MinInt32, math.MaxInt32)) })
-	basic("int64", int64(0), func(r *rand.Rand) reflect.Value { return rv(genI(r, math.MinInt64, math.MaxInt64)) }, "default:42", "autoCreateTime", "autoCreateTime:nano", "autoUpdateTime:milli", "serializer:unixtime;type:datetime")
-	basic("int", int(0), func(r *rand.Rand) reflect.Value { return rv(genI(r, math.MinInt64, math.MaxInt64)) }, "default:7")
+	basic("int64", int64(0), func(r *rand.Rand) reflect.Value { return rv(genI(r, math.MinInt64, math.MaxInt64)) }, "default:42", "default:(abs(-7))", "autoCreateTime", "autoCreateTime:nano", "autoUpdateTime:milli", "serializer:unixtime;type:datetime")
+	basic("int", int(0), func(r *rand.Rand) reflect.Value { return rv(genI(r, math.MinInt64, math.MaxInt64)) }, "default:7", "default:(1+1)")
 	basic("uint8", uint8(0), func(r *rand.Rand) reflect.Value { return rv(genU(r, math.MaxUint8)) })
 	basic("uint16", uint16(0), func(r *rand.Rand) reflect.Value { return rv(genU(r, math.MaxUint16)) })
 	basic("uint32", uint32(0), func(r *rand.Rand) reflect.Value { return rv(genU(r, math.MaxUint32)) }, "default:9")
@@ -262,7 +262,7 @@ func c03Atoms() []c03Atom {
 	basic("uint", uint(0), func(r *rand.Rand) reflect.Value { return rv(genU(r, math.MaxInt64)) }, "autoUpdateTime")
 	basic("float32", float32(0), func(r *rand.Rand) reflect.Value { return rv(float32(genF(r))) })
 	basic("float64", float64(0), func(r *rand.Rand) reflect.Value { return rv(genF(r)) }, "default:1.5")
-	basic("string", "", func(r *rand.Rand) reflect.Value { return rv(genS(r)) }, "default:abc", "default:'q w'", "size:500")
+	basic("string", "", func(r *rand.Rand) reflect.Value { return rv(genS(r)) }, "default:abc", "default:'q w'", "size:500", "default:(lower('QW'))", "default:(lower(hex(randomblob(4))))")
 	basic("time", time.Time{}, func(r *rand.Rand) reflect.Value { return rv(genT(r)) }, "autoCreateTime", "autoUpdateTime")
 	as = append(as, c03Atom{Name: "bytes", Typ: reflect.TypeOf([]byte(nil)), Gen: func(r *rand.Rand) reflect.Value { return rv(genBytes(r)) }})
 	// defined types without methods
@@ -626,6 +626,7 @@ type c03Field struct {
 	Column string // "" = embedded (several columns)
 	Tag    string
 	Def    bool   // has default: tag
+	DBDef  bool   // … whose value is a DB expression (gorm cannot substitute it itself: learnt through RETURNING only)
 	Auto   string // "", "time", "sec", "milli", "nano" (auto create/update time)
 	PK     bool
 	AutoPK bool
@@ -727,6 +728,7 @@ func c03GenSchema(seed int64, atoms []c03Atom) *c03Schema {
 			switch {
 			case strings.HasPrefix(o, "default:"):
 				f.Def = true
+				f.DBDef = strings.HasPrefix(o, "default:(")
 			case strings.HasPrefix(o, "auto"):
 				switch {
 				case a.Name == "time":
@@ -842,9 +844,33 @@ func (s *c03Schema) genRecords(seed int64, n int) reflect.Value {
 				fv.SetString(fmt.Sprintf("k%d/%s", i, c03UniStrings[1+rng.Intn(10)]))
 			case f.PK:
 				fv.SetInt(int64(1000 + i*7))
+			case f.DBDef:
+				// one INSERT must not mix given and omitted values of a DB-default column (the SQLite dialector renders the
+				// omitted ones as the keyword DEFAULT inside VALUES, which SQLite rejects): all records zero, or all non-zero
+				if (seed>>3)%2 == 1 {
+					for try := 0; try < 50 && fv.IsZero(); try++ {
+						fv.Set(f.Atom.Gen(rng).Convert(f.Atom.Typ))
+					}
+					if fv.IsZero() {
+						fv.Set(reflect.Zero(f.Atom.Typ))
+					}
+				}
 			default:
 				fv.Set(f.Atom.Gen(rng).Convert(f.Atom.Typ))
 			}
+		}
+	}
+	// (a column whose records could not all be made non-zero falls back to all-zero)
+	for fi, f := range s.Fields {
+		if !f.DBDef {
+			continue
+		}
+		anyZero := false
+		for i := 0; i < n; i++ {
+			anyZero = anyZero || recs.Index(i).Field(fi).IsZero()
+		}
+		for i := 0; i < n && anyZero; i++ {
+			recs.Index(i).Field(fi).Set(reflect.Zero(f.Atom.Typ))
 		}
 	}
 	return recs
@@ -1146,6 +1172,11 @@ func c03RunE2E(r *Result, in c03E2EInput) (bad []string) {
 						bad = append(bad, fmt.Sprintf("rec %d: map key %v, row key %s", i, kv, want))
 					}
 				}
+				checkMem = false
+			case !fromMap && f.DBDef && zero && !in.Returning:
+				// LATITUDE: without RETURNING gorm cannot learn a database-generated value: every read must agree, the
+				// in-memory record is not judged
+				want = f.canon(loaded[0].v.Field(fi))
 				checkMem = false
 			case !fromMap && f.Def && zero:
 				want = inMem // gorm may substitute the default: demand loaded == in-memory only
